@@ -258,16 +258,58 @@ def rule_routes(rep, repo):
     rep.unit(unit)
     seen = {}
 
-    def load(pe, a, k, seen=seen):
+    received = {}
+    spec = [("dense", ["dense/kernel", "dense/bias"], 2),
+            ("frozen", ["frozen/kernel", "frozen/bias"], 0),
+            ("act", [], 0),
+            ("bn", ["bn/gamma", "bn/beta", "bn/mean", "bn/var"], 2),
+            ("stats_only", ["stats_only/mean", "stats_only/var"], 0)]
+
+    def mk_layers(target):
+      layers = []
+      for lname, ws, ntrain in spec:
+        def setw(pe, a, k, lname=lname):
+          received[lname] = list(a[0])
+        attrs = {"name": lname, "trainable": ntrain > 0 or not ws,
+                 "get_weights": (lambda pe, a, k, ws=ws: list(ws)),
+                 "weights": list(ws), "trainable_weights": ws[:ntrain],
+                 "non_trainable_weights": ws[ntrain:],
+                 "__class__": Mock("class", {"__name__": "Layer"})}
+        if target:
+          attrs["set_weights"] = setw
+        layers.append(Mock("layer:" + lname, attrs))
+      return layers
+
+    def load(pe, a, k, seen=seen, received=received):
       seen["custom_objects"] = k.get("custom_objects",
                                      a[1] if len(a) > 1 else None)
-      return Mock("qmodel", {"set_weights": lambda pe, a, k: None})
+      ql = mk_layers(True)
+
+      def set_all(pe, a, k):
+        ws = list(a[0])
+        for (lname, lws, _) in spec:
+          received[lname] = ws[:len(lws)]
+          ws = ws[len(lws):]
+        if ws:
+          received["<extra>"] = ws
+      return Mock("qmodel", {
+          "set_weights": set_all, "layers": ql,
+          "get_layer": lambda pe, a, k: [
+              l for l in ql if l.attrs["name"] == (a[0] if a else
+                                                   k.get("name"))][0]})
     pe = PE(repo, module_overrides={UM: {"model_from_json": load}})
     pe.ext_overrides = {"tf.keras.models.load_model": load,
                         "tf.keras.models.model_from_json": load}
     user = {"mine": "object"}
-    model = Mock("model", {"to_json": lambda pe, a, k: Mock("json", {}),
-                           "get_weights": lambda pe, a, k: []})
+    src_layers = mk_layers(False)
+    model = Mock("model", {
+        "to_json": lambda pe, a, k: Mock("json", {}),
+        "layers": src_layers,
+        "get_layer": lambda pe, a, k: [
+            l for l in src_layers if l.attrs["name"] == (
+                a[0] if a else k.get("name"))][0],
+        "get_weights": lambda pe, a, k: [w for _, ws, _ in spec
+                                         for w in ws]})
     try:
       if fname == "load_qmodel":
         pe.call(pe.lookup_global(fname, um), ["file.h5"],
@@ -288,6 +330,18 @@ def rule_routes(rep, repo):
               "the Keras loader is called with custom_objects=%s: the "
               "library's classes (and the caller's) must be in it" %
               (sorted(co) if isinstance(co, dict) else co), loc=um.loc(fn))
+    if fname == "clone_model":
+      # every layer of the clone receives exactly the source layer's
+      # parameters (trainable or not), whichever way they are transferred
+      for lname, ws, _ in spec:
+        got = received.get(lname, [])
+        rep.check(list(got) == list(ws), "R4", unit,
+                  "clone-weights-not-transferred:" + lname,
+                  "the clone's layer %r receives %s, the source layer holds "
+                  "%s" % (lname, got, ws), loc=um.loc(fn))
+      rep.check("<extra>" not in received, "R4", unit,
+                "clone-weights-misaligned", "weights left over: %s" %
+                received.get("<extra>"), loc=um.loc(fn))
     rep.check(user == {"mine": "object"}, "R4", unit,
               "caller-dictionary-modified",
               "the caller's custom_objects dictionary was modified: %s" %
